@@ -21,7 +21,7 @@ EXPLANATION = (
     "it, raise 'from None', and build FAILED values by filtering that partial state; (R3) in both supersteps a node's outputs reach the state only on "
     "paths where its executor returned normally (or a cache hit); (R4) nested runs and map propagate the original exception object (no handler, default "
     "raise mode, 'raise result.error'); (R5) the error and pause paths of run() filter partial values with the non-raising default on_missing policy, "
-    "so a user's on_missing='error' cannot replace the node's exception. (R6) no function under runners/ cancels a task or applies a time-out (the CancelledError/TimeoutError this injects would compete with the node's own exception for 'first error of the step' and is not an Exception the templates unwrap)."
+    "so a user's on_missing='error' cannot replace the node's exception. (R6) no function under runners/ cancels a task or applies a time-out (the CancelledError/TimeoutError this injects would compete with the node's own exception for 'first error of the step' and is not an Exception the templates unwrap). R2 also requires the carrier's constructor to be total (str(cause) and attribute stores only); R3 evaluates the result-application loop under 'the result is an exception' as a valuation of that atom, so a second failure of the same step can never be unpacked as data."
 )
 NOT_DECIDED = "That partial values are the correct values (a statement about computed data); which of several same-step failures is reported first is decided under C02."
 
